@@ -173,6 +173,7 @@ impl C07 {
             ("components_structured", big_graphs.len() as u64),
             ("large_values", 10 * 10 * 10 + 10 * 10 + 10 + 1),
             ("components_large_sparse", (LARGE.len() * 6) as u64),
+            ("extreme_values", 7 * 7 * 7 * 7 + 7 * 7 * 7 + 7 * 7 + 7 + 1),
         ];
         let mut families = families;
         if !quick {
@@ -768,6 +769,54 @@ impl C07 {
                     ensure(NaturalArray::<K>::repeat(&a(&[n]), &[5]).0 == vec![5; n], || format!("repeat([{}],[5])", n))?;
                 }
                 Ok(v.iter().any(|&y| y > 4))
+            }
+            "extreme_values" => {
+                // all arrays of length <= 4 over values at the top of the usize range (and 0, 1): the primitives that
+                // compare, count, permute or copy values without doing arithmetic on them must not treat any value
+                // as special (no sentinel is available)
+                const EXTREME: [usize; 7] = [0, 1, usize::MAX, usize::MAX - 1, usize::MAX / 2, usize::MAX / 2 + 1, 1 << 32];
+                let v: Vec<usize> = ohmc_core::uni::s_unrank(7, 4, i).into_iter().map(|k| EXTREME[k]).collect();
+                let n = v.len();
+                let x = a(&v);
+                ensure(NaturalArray::<K>::max(&x) == v.iter().max().cloned(), || format!("max({:?})", v))?;
+                check_sorting_perm(&v, &OrdArray::<K, usize>::argsort(&x).0)?;
+                let (keys, counts) = NaturalArray::<K>::sparse_bincount(&x);
+                let mut kc: Vec<(usize, usize)> = keys.0.iter().cloned().zip(counts.0.iter().cloned()).collect();
+                kc.sort();
+                let mut uniq = v.clone();
+                uniq.sort();
+                uniq.dedup();
+                ensure(keys.0.len() == counts.0.len() && kc == uniq.iter().map(|u| (*u, v.iter().filter(|y| *y == u).count())).collect::<Vec<_>>(), || format!("sparse_bincount({:?}) = ({:?},{:?})", v, keys.0, counts.0))?;
+                ensure(NaturalArray::<K>::zero(&x).0 == (0..n).filter(|&j| v[j] == 0).collect::<Vec<_>>(), || format!("zero({:?})", v))?;
+                if BACKEND_NAME == "vec" {
+                    let (d, k) = open_hypergraphs::array::vec::to_dense(&v[..]);
+                    ensure(d.len() == n && is_dense_surjection(&d, k) && same_partition(&d, &v), || format!("to_dense({:?}) = ({:?},{})", v, d, k))?;
+                }
+                let rev: Vec<usize> = (0..n).rev().collect();
+                ensure(Array::<K, usize>::gather(&x, &rev[..]).0 == rev.iter().map(|&k| v[k]).collect::<Vec<_>>(), || format!("gather({:?}, reversed)", v))?;
+                if n > 0 {
+                    ensure(Array::<K, usize>::scatter(&x, &rev[..], n).0 == rev.iter().map(|&k| v[k]).collect::<Vec<_>>(), || format!("scatter({:?}, reversed)", v))?;
+                    let mut y = a(&vec![7; n]);
+                    Array::<K, usize>::scatter_assign(&mut y, &a(&rev), a(&v));
+                    ensure(y.0 == rev.iter().map(|&k| v[k]).collect::<Vec<_>>(), || format!("scatter_assign(reversed, {:?})", v))?;
+                    let mut y = a(&v);
+                    Array::<K, usize>::scatter_assign_constant(&mut y, &a(&[0]), usize::MAX);
+                    let mut e = v.clone();
+                    e[0] = usize::MAX;
+                    ensure(y.0 == e, || format!("scatter_assign_constant({:?}, [0], MAX)", v))?;
+                }
+                ensure(Array::<K, usize>::concatenate(&x, &x).0 == [v.clone(), v.clone()].concat(), || format!("concatenate({:?}, itself)", v))?;
+                ensure(<Arr<usize> as Array<K, usize>>::fill(usize::MAX, n).0 == vec![usize::MAX; n], || "fill(MAX, n)".to_string())?;
+                ensure(Array::<K, usize>::get_range(&x, ..) == &v[..], || format!("get_range({:?}, ..)", v))?;
+                let sorted = OrdArray::<K, usize>::sort_by(&x, &x);
+                let mut sv = v.clone();
+                sv.sort();
+                ensure(sorted.0 == sv, || format!("sort_by({:?} by itself) = {:?}", v, sorted.0))?;
+                ensure((a(&v) - a(&v)).0 == vec![0; n], || format!("x - x on {:?}", v))?;
+                // repeat counts and quot_rem / scalar ops on values that cannot overflow
+                let (q, r) = NaturalArray::<K>::quot_rem(&x, 7);
+                ensure(q.0 == v.iter().map(|y| y / 7).collect::<Vec<_>>() && r.0 == v.iter().map(|y| y % 7).collect::<Vec<_>>(), || format!("quot_rem({:?}, 7)", v))?;
+                Ok(v.iter().any(|&y| y > 1))
             }
             "components_large_sparse" => {
                 let n = LARGE[(i / 6) as usize];
